@@ -19,7 +19,7 @@ RULE = ('(1) contract evaluation: every labelled DAG on <=3 (quick) / <=4 '
         'tests:" header sequence, each header once, also for --list-tests '
         'and -j N. Non-trivial = >=3 layers with >=1 base edge; distinct by '
         '(DAG, kinds, naming, subset) resp. (world, variant).')
-ASSUMPTIONS = ['layers have distinct qualified names',
+ASSUMPTIONS = ['layers have distinct qualified names (bare names may repeat across modules)',
                'class-layer DAGs are restricted to those with a consistent '
                'C3 MRO (others cannot be written in Python)']
 FLOORS = {'order_calls': 20000, 'perm_groups': 3000, 'nontrivial_groups': 1000,
@@ -66,10 +66,18 @@ def cases(tier, seed):
 NAMES = ['Aa', 'Bb', 'Cc', 'Dd', 'Ee', 'Ff', 'Gg', 'Hh']
 
 
+def _modname(name):
+    # a name is either 'Aa' (module c10mod) or ('c10m2', 'Aa'): layers in
+    # different modules may share their bare name, only the qualified names
+    # are distinct
+    if isinstance(name, (tuple, list)):
+        return name[0], name[1]
+    return 'c10mod', name
+
+
 class Inst:
     def __init__(self, name, bases):
-        self.__name__ = name
-        self.__module__ = 'c10mod'
+        self.__module__, self.__name__ = _modname(name)
         self.__bases__ = tuple(bases)
 
     def __repr__(self):
@@ -96,8 +104,9 @@ def build_layers(n, edges, names, kind, unit_bases=(), unit=None):
             if i in unit_bases:
                 bases.append(unit)
             try:
-                objs[i] = type(names[i], tuple(bases) or (object,),
-                               {'__module__': 'c10mod'})
+                mod, nm = _modname(names[i])
+                objs[i] = type(nm, tuple(bases) or (object,),
+                               {'__module__': mod})
             except TypeError:
                 return None
     return [objs[i] for i in range(n)]
@@ -149,6 +158,20 @@ def run_enum(case):
     namings = list(itertools.permutations(NAMES[:n]))
     if case.get('namings'):
         namings = rng.sample(namings, min(len(namings), case['namings']))
+    # same bare name in n different modules (every assignment of the module
+    # names), and a mixed naming with one shared bare name
+    shared = [[('c10m%d' % p[i], 'Aa') for i in range(n)]
+              for p in itertools.permutations(range(n))]
+    if n >= 4:
+        shared = rng.sample(shared, 6)
+    mixed = []
+    if n >= 2:
+        for p in itertools.permutations(range(n)):
+            mixed.append([('c10m%d' % p[i], 'Aa') if i < 2 else NAMES[p[i]]
+                          for i in range(n)])
+        mixed = rng.sample(mixed, min(len(mixed), 4))
+    counters['shared_name_namings'] = len(shared) + len(mixed)
+    namings = [list(x) for x in namings] + shared + mixed
     for edges in case['dags']:
         edges = [tuple(e) for e in edges]
         for kind in ('inst', 'class'):
@@ -228,6 +251,13 @@ def run_random(case):
         edges = [(i, j) for i in range(n) for j in range(i)
                  if rng.random() < 0.3]
         names = rng.sample(NAMES, n)
+        if rng.random() < 0.5:
+            # bare names repeat across modules
+            names = [('c10m%d' % rng.randrange(3), rng.choice(NAMES[:3]))
+                     for _ in range(n)]
+            while len({tuple(x) for x in names}) < n:
+                names = [('c10m%d' % rng.randrange(4), rng.choice(NAMES[:3]))
+                         for _ in range(n)]
         layers = build_layers(n, edges, names, 'inst', (), UnitTests)
         pool = layers + ([UnitTests] if rng.random() < 0.5 else [])
         for _s in range(6):
